@@ -285,6 +285,20 @@ class _Translate(Flow):
             return (st,), (st,)
         return ((st,), ()) if val else ((), (st,))
 
+    def _value(self, e, st):
+        """State member an expression evaluates to in this state (conditional expressions are decided by the oracle)"""
+        if isinstance(e, ast.IfExp):
+            t, f = self.cond(e.test, {st})
+            if t and not f:
+                return self._value(e.body, st)
+            if f and not t:
+                return self._value(e.orelse, st)
+            return None
+        m = _state_member(self.prog, e, self.f)
+        if m is None and isinstance(e, ast.Name):
+            m = dict(st[1]).get(e.id)
+        return m
+
     def on_stmt(self, s, st):
         if isinstance(s, ast.Assign):
             env = dict(st[1])
@@ -293,20 +307,14 @@ class _Translate(Flow):
                     if nm == self.p:
                         self.unknown.append(s)
                     env.pop(nm, None)
-                    m = _state_member(self.prog, s.value, self.f)
-                    if m is None and isinstance(s.value, ast.Name):
-                        m = dict(st[1]).get(s.value.id)
+                    m = self._value(s.value, st)
                     if m is not None and isinstance(t, ast.Name):
                         env[nm] = m
             return ((st[0], frozenset(env.items())),)
         return (st,)
 
     def on_return(self, node, st):
-        m = None
-        if node.value is not None:
-            m = _state_member(self.prog, node.value, self.f)
-            if m is None and isinstance(node.value, ast.Name):
-                m = dict(st[1]).get(node.value.id)
+        m = self._value(node.value, st) if node.value is not None else None
         self.returns.append((st[0], m, node))
         return (st,)
 
@@ -893,6 +901,7 @@ class _Visit(Flow):
         self.effects = []  # (node, description) accepted effects (instances of R-C05-3)
         self._handon_sites = set()
         self._seen_bad = set()
+        self.raises = []  # explicit raise statements inside the visit
 
     # ---- helpers
     def _bad(self, node, msg):
@@ -961,6 +970,30 @@ class _Visit(Flow):
             return (st.r(pend=None, mself=False, sched=True),)
         return (st,)
 
+    def _emptiness(self, e, st):
+        """(work set, branch on which it is known empty) for S / len(S) / len(S) == 0 / len(S) > 0 / len(S) != 0 / S == []"""
+
+        def unlen(x):
+            return x.args[0] if isinstance(x, ast.Call) and call_name(x) == 'len' and len(x.args) == 1 and not x.keywords else None
+
+        def ws(x):
+            return ws_of(self.f, x, self._kb(st)) if isinstance(x, (ast.Call, ast.Name)) else None
+
+        if isinstance(e, ast.Compare) and len(e.ops) == 1:
+            a, b, op = e.left, e.comparators[0], e.ops[0]
+            flip = False
+            if is_const(a, 0):
+                a, b, flip = b, a, True
+            if is_const(b, 0) and unlen(a) is not None:
+                w = ws(unlen(a))
+                if isinstance(op, ast.Eq):
+                    return w, True
+                if isinstance(op, ast.NotEq) or (isinstance(op, ast.Gt) and not flip) or (isinstance(op, ast.Lt) and flip):
+                    return w, False
+            return None, None
+        t = unlen(e) if unlen(e) is not None else e
+        return ws(t), False  # falsy work set (or zero length) = empty
+
     def _wl_test(self, e):
         """truthiness of the work list: W / len(W) / len(W) > 0 / 0 < len(W)"""
         if self.wl is None:
@@ -980,10 +1013,10 @@ class _Visit(Flow):
                 absent = st.r(rm=True)
                 return ((st,), (absent,)) if isinstance(e.ops[0], ast.In) else ((absent,), (st,))
             return (st,), (st,)
-        t = e.args[0] if isinstance(e, ast.Call) and call_name(e) == 'len' and len(e.args) == 1 else e
-        w = ws_of(self.f, t, self._kb(st)) if isinstance(t, (ast.Call, ast.Name)) else None
+        w, empty_when = self._emptiness(e, st)
         if w is not None and self._is_cur(w[0]):
-            return (st,), (st.r(emp=st.emp | {w[1]}),)  # falsy work set = empty
+            known = st.r(emp=st.emp | {w[1]})
+            return ((known,), (st,)) if empty_when else ((st,), (known,))
         lv = self._loopvar(st)
         if lv:
             k = _self_test(e, lv, self.cur)
@@ -1081,7 +1114,10 @@ class _Visit(Flow):
                     node, wk = det
                     if m in ('remove', 'discard') and self._is_cur(node) and len(call.args) == 1 and self._is_tgt(call.args[0]):
                         self._effect(call, f"withdraw the target from the visited node's {wk} set")
-                        return (st.r(rm=True),) if wk == 'todo' else (st,)
+                        after = st.r(rm=True) if wk == 'todo' else st
+                        if m == 'remove' and self._try:
+                            self._try[-1].add(after)  # remove() raised: the target was not in the set
+                        return (after,)
                     self._bad(
                         call,
                         f'{norm(call)} changes a work set other than by removing {self.tgt} from the visited node '
@@ -1134,6 +1170,22 @@ class _Visit(Flow):
 
     def on_return(self, node, st):
         return (st,)
+
+    # accepted idiom: try: S.remove(t) / except KeyError: pass  - the exception means the target was already absent.
+    # Only that exception edge is modelled (injected by on_call); implicit exceptions of other calls are out of scope.
+    def may_raise(self, call, st):
+        return False
+
+    def on_raise(self, node, st):
+        self.raises.append(node)
+        return (st,)
+
+    def on_handler(self, h, st):
+        if h.type is None:
+            return (st,)
+        types = h.type.elts if isinstance(h.type, ast.Tuple) else [h.type]
+        names = {t.id for t in types if isinstance(t, ast.Name)}
+        return (st,) if names & {'KeyError', 'ValueError', 'LookupError', 'Exception', 'BaseException'} else ()
 
 
 def _purge_setup(ctx):
@@ -1245,8 +1297,8 @@ def _rule2(ctx, rep, setup):
         else:
             if any(not e.sched for e in exits):
                 problems.append('the function can be left before the loop over the children has completed (or has no such loop)')
-        if out.exc:
-            problems.append('an explicit raise leaves the sweep')
+        if v.raises:
+            problems.append(f'an explicit raise leaves the sweep ({norm(v.raises[0])})')
         if not v.handons:
             problems.append('no recursive call / work-list push of the children was found')
         r.check(
@@ -1638,6 +1690,8 @@ VARIANTS = [
     ),
     V('discard instead of test and remove', 'N', _SCH, 'purge', "if target in node.get('todo', []):\n        node.get('todo').remove(target)", "node.get('todo').discard(target)", None),
     V('work set read through a local', 'N', _SCH, 'purge', "if target in node.get('todo', []):\n        node.get('todo').remove(target)", "pending = node.get('todo', [])\n    if target in pending:\n        pending.remove(target)", None),
+    V('remove guarded by try/except instead of a membership test', 'N', _SCH, 'purge', "if target in node.get('todo', []):\n        node.get('todo').remove(target)", "try:\n        node.get('todo').remove(target)\n    except KeyError:\n        pass", None),
+    V('purge raises for an unknown node', 'B', _SCH, 'purge', "if target in node.get('do', []):", "if node.get('todo') is None:\n        raise ValueError(node.tag)\n    if target in node.get('do', []):", 'R-C05-2'),
     V('logging added to purge', 'N', _SCH, 'purge', "if target in node.get('do', []):", "log.debug('purge %s from %s', target, node.tag)\n    if target in node.get('do', []):", None),
     V('queue pruning with len()', 'N', _SCH, 'purge', "not (node.get('todo', []) or node.get('doing', []))", "len(node.get('todo', [])) == 0 and not node.get('doing', [])", None),
     V('routing with the branches swapped', 'N', _FARM, 'Hand._res', _ROUTE, 'if state != dawgie.pl.schedule.State.success:\n                dawgie.pl.schedule.purge(job, inc)\n            else:\n                dawgie.pl.farm.ARCHIVE |= any(msg.values)\n                dawgie.pl.schedule.update(msg.values, job, msg.runid)', None),
